@@ -84,4 +84,21 @@ Proof.
   apply M4_eq; apply V4_eq;
     match goal with |- ?L = ?R => transitivity ((rt * rt + rt * rt) * R); [ring | rewrite Hrt; ring] end.
 Qed.
+
+(* the algebraic core of decompositions._absorb_zeta: a residual phase zeta sitting on both modes next to an
+   sMZI is absorbed by shifting both internal phases (sigma += zeta), on either side *)
+Theorem sMZ_common_phase : forall a b z : ang K,
+  let both := acomp K (aswap K (doc K (Rgate K z))) (doc K (Rgate K z)) in
+  doc K (sMZgate K (a_add a z) (a_add b z)) = acomp K both (doc K (sMZgate K a b))
+  /\ doc K (sMZgate K (a_add a z) (a_add b z)) = acomp K (doc K (sMZgate K a b)) both.
+Proof.
+  intros [ca sa za] [cb sb zb] [cz sz zz]. 
+  split;
+  lazy beta iota zeta delta
+    [Alg.acomp Alg.aswap Alg.mmul Alg.mid Alg.mvec Alg.vadd Alg.vrow Alg.dot Alg.col0 Alg.col1 Alg.col2 Alg.col3 Alg.v0 Alg.swapm
+     Alg.one Alg.m_rot Alg.m_uni Alg.a_lin Alg.lin Alg.off Alg.r0 Alg.r1 Alg.r2 Alg.r3 Alg.c0 Alg.c1 Alg.c2 Alg.c3
+     Model.doc a_add Model.hf Model.co Model.si Model.az];
+  apply aff_eq; [apply M4_eq; apply V4_eq; ring | apply V4_eq; ring | apply M4_eq; apply V4_eq; ring | apply V4_eq; ring].
+Qed.
+
 End Refute.
